@@ -113,7 +113,7 @@ where
     {
         let n = self.len();
         if n == 1 {
-            self[0].clone()
+            self[i].clone()
         } else {
             let mut rng = thread_rng();
             let pivot_index = rng.gen_range(0..n);
@@ -139,6 +139,14 @@ where
         let mut deduped_indexes: Vec<usize> = indexes.to_vec();
         deduped_indexes.sort_unstable();
         deduped_indexes.dedup();
+        if let Some(&max_index) = deduped_indexes.last() {
+            assert!(
+                max_index < self.len(),
+                "index {} is out of bounds for an array of length {}",
+                max_index,
+                self.len()
+            );
+        }
 
         get_many_from_sorted_mut_unchecked(self, &deduped_indexes)
     }
